@@ -442,7 +442,7 @@ def run_models(prop, wd, tier):
     """MC_Krylov on the catalog (exact expectations) + MC_LoopControl (all outcome sequences)."""
     cs = cases()
     res = tla.run_tlc("MC_Krylov", f"SPECIFICATION Spec\nCONSTANTS\n Block = 4\n Extra = {EXTRA}\n"
-                      "INVARIANT CaseOK\nINVARIANT CtlOK\nINVARIANT ScaleEquivariant\nINVARIANT Emit\n", wd,
+                      "INVARIANT CaseOK\nINVARIANT CtlOK\nINVARIANT ScaleEquivariant\nINVARIANT StartScaleInvariant\nINVARIANT Emit\n", wd,
                       gen_files={"KrylovCatalog.tla": render_catalog(cs)})
     if res.error or res.violated:
         raise tla.TLCError(f"MC_Krylov failed: {res.error or res.violated}\n" + res.out[-3000:])
@@ -462,7 +462,8 @@ def run_models(prop, wd, tier):
              "mc_krylov_states": res.distinct, "mc_loopcontrol_states": res2.distinct,
              "tlc_wall_s": round(res.wall + res2.wall, 1), "catalog_cases": len(cs),
              "catalog_matrices": len(matrices()),
-             "scale_equivariant_cases": 2 * len([c for c in cs if c.get("exact")])}
+             "scale_equivariant_cases": 2 * len([c for c in cs if c.get("exact")]),
+             "start_scale_invariant_cases": 2 * len([c for c in cs if c.get("exact")])}
     return cs, stats
 
 
@@ -755,6 +756,46 @@ def general_case(rng, n, kind, cplx):
 
 # ------------------------------------------------------------------------------------------------------
 # numeric helpers
+VDT = {"f32": np.float32, "f64": np.float64, "c64": np.complex64, "c128": np.complex128, "i64": np.int64,
+       "i32": np.int32}
+START_SCALES = (1e-13, 1e-30, 1e8)      # start-vector factors of the start-invariance family
+START_SCALE_EXACT = 2.0 ** -44          # dyadic factor below 1e-10 (exact-breakdown cases stay exact)
+
+
+def cast_start(x, sdt):
+    """start vector in the dtype `sdt` (values must be representable: real for real / integer dtypes, integral for
+    integer dtypes)"""
+    x = np.asarray(x)
+    d = np.dtype(VDT[sdt])
+    if not np.issubdtype(d, np.complexfloating):
+        assert np.all(np.imag(x) == 0), "complex start vector cannot be given in a real dtype"
+        x = np.real(x)
+    if np.issubdtype(d, np.integer):
+        assert np.all(x == np.round(x)), "non-integral start vector cannot be given in an integer dtype"
+    return x.astype(d)
+
+
+def start_dtypes(dt, real_v, integral_v):
+    """dtypes other than the operator's in which the start vector can be handed over without changing its values
+    beyond the rounding of a narrower float"""
+    out = {"f64": ["f32"], "f32": ["f64"], "c128": ["c64"], "c64": ["c128"]}[dt]
+    if real_v and dt in ("c128", "c64"):
+        out = ["f64", "f32"] + out
+    if real_v and integral_v:
+        out = out + ["i64", "i32"]
+    return out
+
+
+def start_tol(dt, sdt):
+    """agreement with the reference run when the start vector has the same values in the dtype sdt: 1e3 ulps of the
+    narrower float type involved (the vector is normalised in its own dtype before promotion)"""
+    e = float(np.finfo(NPDT[dt]).eps)
+    d = np.dtype(VDT[sdt])
+    if not np.issubdtype(d, np.integer):
+        e = max(e, float(np.finfo(d).eps))
+    return 1e3 * e
+
+
 def tol_eff(item):
     """tolerance in force: item["tol"] is None when the argument is omitted (cola's default)"""
     return 1e-7 if item.get("tol") is None else item["tol"]
